@@ -12,6 +12,7 @@ import Proofs.Engine
 import Proofs.ExprHom
 import Proofs.ExprReal
 import Proofs.IdManager
+import Proofs.PyAgree
 
 open Expr Engine
 
@@ -118,6 +119,22 @@ theorem side_by_side {α} [NumOps α] (sem : Sem α) (hb : ChildrenBlind sem) (d
     show (d ++ extra)[j]? = some n'
     rw [List.getElem?_append_left hjl]; exact hj
   exact (eval_hom sem hb id d (d ++ extra) hwf hwf2 hh env k hk).symm
+
+/-- **Where the pure-Python evaluator accepts the formula it returns that same number** (ℝ).
+`get_value()` reads parameters at their starting values, short-circuits `And`/`Or` and returns 0
+for `0 ** c`; whenever it returns a number `v` and the mathematical value `w` of the formula is
+defined (at the starting values, no `e ** 0`), `v = w`. -/
+theorem pyEval_agrees (d : Dag ℝ) (env : Env ℝ) (hd : PyDomain d env) (k : Nat) (v w : ℝ)
+    (hv : eval semPy d env k = .ok v) (hw : eval semMath d env k = .ok w) : v = w :=
+  evalN_py_agree d env hd (k + 1) k v w hv hw
+
+/-- the Python evaluator does not implement data variables, the normal cdf, set membership and
+linear utilities: such a node is never "accepted" -/
+theorem pyEval_unsupported {α} [NumOps α] (n : Node α) (env : Env α) (rs : List (Res α))
+    (h : n.kind = .var ∨ n.kind = .normalCdf ∨ n.kind = .belongsTo ∨ n.kind = .linUtil) :
+    semPy n env rs = .error .unsupported := by
+  obtain ⟨k, c, nm, v, ks, ms, f⟩ := n
+  rcases h with h | h | h | h <;> (simp only at h; subst h; rfl)
 
 /-! ### non-vacuity: a shared sub-formula, evaluated on the three paths -/
 
